@@ -180,7 +180,10 @@ func (im *geImpl) execCall(ws []string) string {
 	if e1 != nil || e2 != nil {
 		return "bad-op"
 	}
-	c, site, frames, problem := wire.ParseCall(ws[2:])
+	c, site, frames, problem := wire.ParseCallR(ws[2:], func(kind string, reg int) (error, bool) {
+		e, ok := im.regs[reg]
+		return e, ok
+	})
 	if problem != "" {
 		return problem
 	}
@@ -287,7 +290,7 @@ func (g *c15gen) randSite() string {
 }
 
 // callLine builds `ge call` for method m from register r into d.
-func (g *c15gen) callLine(d, r int, m string, corrupt bool) (line string, nonblank bool) {
+func (g *c15gen) callLine(d, r int, m string, corrupt bool, wrapRegs []int) (line string, nonblank bool) {
 	rng := g.rng
 	site := g.randSite()
 	var params []string
@@ -336,6 +339,13 @@ func (g *c15gen) callLine(d, r int, m string, corrupt bool) (line string, nonbla
 		}
 		formatted = fmt.Sprintf("%+v", e.ErrValue())
 		nonblank = true
+		if m != "ExtMsgfForeign" && len(wrapRegs) > 0 && rng.Intn(4) == 0 {
+			// a foreign error that wraps (%w / errors.Join) an earlier, stack-free gerror value: not a
+			// gerror itself, so Convert* builds a new error; the model predicts the wrapped text
+			k := []string{"v", "k"}[rng.Intn(2)]
+			elems = []elemSpec{{Kind: k, Val: strconv.Itoa(wrapRegs[rng.Intn(len(wrapRegs))])}}
+			formatted = ""
+		}
 	}
 	if corrupt && m == "ExtMsgfForeign" {
 		corrupt = false
@@ -393,6 +403,7 @@ func (g *c15gen) chainCase() hx.Case {
 	tags = append(tags, "len-"+strconv.Itoa(L))
 	nonblank := 0
 	branched := false
+	stackless := map[int]bool{0: true} // registers whose value has no stack (Error() fully predictable)
 	for i := 0; i < L; i++ {
 		from := i
 		if i > 0 && rng.Intn(6) == 0 {
@@ -410,10 +421,26 @@ func (g *c15gen) chainCase() hx.Case {
 		}
 		if (m == "Convert" || m == "ConvertS") && i > 0 && rng.Intn(3) == 0 {
 			// Convert of a value that already is a gerror: returned as it is
-			lines = append(lines, fmt.Sprintf("ge conv %d %d %s %d", i+1, from, m, rng.Intn(i+1)))
+			arg := rng.Intn(i + 1)
+			lines = append(lines, fmt.Sprintf("ge conv %d %d %s %d", i+1, from, m, arg))
+			stackless[i+1] = stackless[arg]
 			continue
 		}
-		l, nb := g.callLine(i+1, from, m, !domain && rng.Intn(2) == 0)
+		var wrapRegs []int
+		for k := 0; k <= i; k++ {
+			if stackless[k] {
+				wrapRegs = append(wrapRegs, k)
+			}
+		}
+		l, nb := g.callLine(i+1, from, m, !domain && rng.Intn(2) == 0, wrapRegs)
+		switch m {
+		case "ExtMsgf":
+			stackless[i+1] = stackless[from]
+		case "ExtMsgfForeign":
+			stackless[i+1] = true
+		default:
+			stackless[i+1] = stackless[from] && !takesStack(m)
+		}
 		if nb {
 			nonblank++
 		}
